@@ -190,38 +190,81 @@ func compGlobal(g *ssa.Global) string { return "G:" + shortPkg(g.Pkg.Pkg.Path(),
 
 // compSort derives the SMT sort of a heap component from its name; component
 // sorts are recorded on first use.
-func (run *FuncRun) compInit(name string, so Sort, epoch int) Term {
+type epochInfo struct {
+	parent   *Snapshot  // nil: nothing is known about the heap of this epoch
+	as       *assignSet // locations that may differ from the parent (nil: none)
+	alloc    Term
+	preAlloc Term
+}
+
+// compInit creates the initial version of a component for an epoch. Epoch 0
+// and epochs without a parent are unconstrained (apart from the closed-heap
+// facts); an epoch created by a call with a frame agrees with its parent on
+// every pre-existing location outside the callee's assigns clause.
+func (run *FuncRun) compInit(sc *Script, name string, so Sort, epoch int) Term {
 	run.compSorts[name] = so
+	if strings.HasPrefix(name, "G:") && run.eng.globalIsConst(name) {
+		epoch = 0 // init-only package variable: one value for the whole run
+	}
 	cname := quote(fmt.Sprintf("%s@%d", name, epoch))
+	t := Term{cname, so}
 	decl := "(declare-const " + cname + " " + string(so) + ")"
-	if f := nilMapFact(name, Term{cname, so}); f != "" {
+	if f := nilMapFact(name, t); f != "" {
 		decl += "\n" + f
 	}
+	info := run.epochInfo[epoch]
 	bound := Term{"alloc@0", SInt}
-	if a, ok := run.epochAlloc[epoch]; ok {
-		bound = a
+	if info != nil {
+		bound = info.alloc
 	}
-	for _, f := range run.heapFacts(name, Term{cname, so}, bound) {
+	for _, f := range run.heapFacts(name, t, bound) {
 		decl += "\n" + f
 	}
-	run.declare(cname, decl)
-	return Term{cname, so}
+	if strings.HasPrefix(name, "MapCard:") {
+		domName := "MapDom:" + strings.TrimPrefix(name, "MapCard:")
+		if ds, ok := run.compSorts[domName]; ok {
+			dom := run.compInit(sc, domName, ds, epoch)
+			for _, f := range run.mapVersionFacts(name, t, dom) {
+				decl += "\n" + f
+			}
+		}
+	}
+	if info == nil || info.parent == nil {
+		if sc != nil && epoch != 0 {
+			sc.Declare(cname, decl)
+		} else {
+			run.declare(cname, decl)
+		}
+		return t
+	}
+	if sc == nil {
+		fail("internal: component %s of epoch %d needed without a script", name, epoch)
+	}
+	if sc.declared[cname] {
+		return t
+	}
+	prev := info.parent.H(run, sc, name, so)
+	for _, f := range run.frameAxioms(name, t, prev, info.preAlloc, info.as) {
+		decl += "\n" + f
+	}
+	sc.Declare(cname, decl)
+	return t
 }
 
 func (st *State) H(name string, so Sort) Term {
 	if t, ok := st.heap[name]; ok {
 		return t
 	}
-	t := st.run.compInit(name, so, st.epoch)
+	t := st.run.compInit(st.script, name, so, st.epoch)
 	st.heap[name] = t
 	return t
 }
 
-func (sn *Snapshot) H(run *FuncRun, name string, so Sort) Term {
+func (sn *Snapshot) H(run *FuncRun, sc *Script, name string, so Sort) Term {
 	if t, ok := sn.heap[name]; ok {
 		return t
 	}
-	return run.compInit(name, so, sn.epoch)
+	return run.compInit(sc, name, so, sn.epoch)
 }
 
 // SetH installs a new version of a component, naming it to keep terms small.
@@ -253,20 +296,36 @@ func (st *State) Assume(t Term) { st.script.Assert(t) }
 // HavocAll forgets every heap component (unknown call).
 func (st *State) HavocAll(reason string) {
 	st.script.Comment("havoc all: " + reason)
-	st.epoch = st.run.nextEpoch()
+	st.newEpoch(nil, nil)
+}
+
+// newEpoch starts a new heap epoch: every component is re-derived lazily from
+// the parent snapshot under the frame given by as (parent nil: unconstrained).
+func (st *State) newEpoch(parent *Snapshot, as *assignSet) {
+	st.newEpochKeeping(parent, as, nil)
+}
+
+// newEpochKeeping is newEpoch, but components for which keep returns true
+// retain their current version (they are known not to be touched).
+func (st *State) newEpochKeeping(parent *Snapshot, as *assignSet, keep func(string) bool) {
+	run := st.run
+	e := run.nextEpoch()
+	name := fmt.Sprintf("alloc@%d", e)
+	st.script.Declare(name, "(declare-const "+name+" Int)")
+	old := st.alloc
+	info := &epochInfo{parent: parent, as: as, alloc: Term{name, SInt}, preAlloc: old}
+	run.epochInfo[e] = info
 	for k := range st.heap {
-		if strings.HasPrefix(k, "G:") && st.run.eng.globalIsConst(k) {
+		if strings.HasPrefix(k, "G:") && run.eng.globalIsConst(k) {
+			continue // init-only package variables keep their value
+		}
+		if keep != nil && keep(k) {
 			continue
 		}
 		delete(st.heap, k)
 	}
-	old := st.alloc
-	// the allocation counter of an epoch is a run-level constant so that
-	// lazily created components of that epoch can be bounded by it
-	name := fmt.Sprintf("alloc@%d", st.epoch)
-	st.run.declare(name, "(declare-const "+name+" Int)")
-	st.alloc = Term{name, SInt}
-	st.run.epochAlloc[st.epoch] = st.alloc
+	st.epoch = e
+	st.alloc = info.alloc
 	st.Assume(Ge(st.alloc, old))
 }
 
@@ -350,6 +409,20 @@ func (run *FuncRun) heapFacts(comp string, t Term, bound Term) []string {
 	return out
 }
 
+// mapVersionFacts: consequences of card = |dom| for every map object of a
+// (MapDom, MapCard) version pair created together (initial or havocked).
+func (run *FuncRun) mapVersionFacts(cardComp string, card Term, dom Term) []string {
+	_, inner := dom.Sort.arrayParts()
+	k, _ := inner.arrayParts()
+	wit := quote("witness:" + string(k))
+	run.declare(wit, "(declare-fun "+wit+" ("+string(ArrSort(k, SBool))+") "+string(k)+")")
+	return []string{
+		fmt.Sprintf("(assert (forall ((r Int)) (! (>= (select %s r) 0) :pattern ((select %s r)))))", card.S, card.S),
+		fmt.Sprintf("(assert (forall ((r Int) (k %s)) (! (=> (select (select %s r) k) (> (select %s r) 0)) :pattern ((select (select %s r) k)))))", k, dom.S, card.S, dom.S),
+		fmt.Sprintf("(assert (forall ((r Int)) (! (=> (> (select %s r) 0) (select (select %s r) (%s (select %s r)))) :pattern ((select %s r)))))", card.S, dom.S, wit, dom.S, card.S),
+	}
+}
+
 // nilMapFact: the nil map (reference 0) is empty in every heap.
 func nilMapFact(comp string, t Term) string {
 	switch {
@@ -381,6 +454,9 @@ type MapComps struct {
 func (run *FuncRun) mapComps(mt *types.Map) MapComps {
 	k := run.eng.reg.SortOf(mt.Key())
 	v := run.eng.reg.SortOf(mt.Elem())
+	run.compSorts[compMapDom(k, v)] = ArrSort(SInt, ArrSort(k, SBool))
+	run.compSorts[compMapVal(k, v)] = ArrSort(SInt, ArrSort(k, v))
+	run.compSorts[compMapCard(k, v)] = ArrSort(SInt, SInt)
 	return MapComps{K: k, V: v,
 		Dom: compMapDom(k, v), Val: compMapVal(k, v), Card: compMapCard(k, v),
 		DomS: ArrSort(SInt, ArrSort(k, SBool)), ValS: ArrSort(SInt, ArrSort(k, v)), CardS: ArrSort(SInt, SInt)}
@@ -393,9 +469,10 @@ type heapReader interface {
 type snapReader struct {
 	sn  *Snapshot
 	run *FuncRun
+	sc  *Script
 }
 
-func (s snapReader) H(name string, so Sort) Term { return s.sn.H(s.run, name, so) }
+func (s snapReader) H(name string, so Sort) Term { return s.sn.H(s.run, s.sc, name, so) }
 
 func mapDom(h heapReader, mc MapComps, ref Term) Term  { return Select(h.H(mc.Dom, mc.DomS), ref) }
 func mapVal(h heapReader, mc MapComps, ref Term) Term  { return Select(h.H(mc.Val, mc.ValS), ref) }
